@@ -179,7 +179,7 @@ Proof.
   - inversion H; subst st1 s. exact HA.
   - destruct (has_prefix s_google_protobuf full); [discriminate|].
     destruct (find_msg D full) as [m|]; [|discriminate].
-    destruct (lookup st (msg_key m)) eqn:El; cbn [obind] in H.
+    destruct (lookup st (msg_key m)) as [en|] eqn:El; [destruct (is_enum_entry en); cbn [obind] in H; [discriminate|]|cbn [obind] in H].
     + inversion H; subst st1 s. exact HA.
     + destruct (rec ((msg_key m, Placeholder) :: st) m) as [[st2 r]| | |] eqn:Er; cbn [obind] in H; try discriminate.
       inversion H; subst st1 s.
